@@ -186,10 +186,13 @@ func (w *walker) walk(v reflect.Value, depth int) {
 		}
 		w.sb.WriteString("}")
 	case reflect.Struct:
-		if t == poolType {
+		if t == poolType || t.Name() == "Pool" && strings.HasSuffix(t.PkgPath(), "/zzsimyield") {
 			// what a sync.Pool holds is decided by the garbage collector (it drops
 			// the victim cache at every cycle) and by which P a goroutine ran on,
 			// not by the program: it is not part of the state a snapshot compares
+			// (in the instrumented copy the library's pools are zzsimyield.Pool,
+			// deterministic; a pool that is used correctly is not a finding, one
+			// that is not shows in the results and in the race detector)
 			w.sb.WriteString("sync.Pool{contents not compared}")
 			return
 		}
